@@ -248,20 +248,29 @@ def parsePattern (s : String) : List Nat := (s.splitOn "/").filterMap String.toN
     the mutex and passed the test when Forward returns and writes only afterwards, the handler's Lock comes after its Unlock —
     must be executable step by step, end with the trailer written, and its output must be the observed body (the trailer
     lines compared as a multiset: Go map order). -/
-def fenceLabels (msgs : List Bytes) (stalledLast : Bool) (tr : MD) (oc : Nat) (om : Bytes) : List Fence.Lbl :=
+def fenceLabels (ws : Bool) (msgs : List Bytes) (stalledLast : Bool) (tr : MD) (oc : Nat) (om : Bytes) : List Fence.Lbl :=
   let n := msgs.length
-  let full (i : Nat) (m : Bytes) : List Fence.Lbl := [.send m, .hLock i, .hCheck i, .hWrite i, .hUnlock i]
+  -- gRPC-WebSocket: the first send writes the header frame before its data frame, under the same lock
+  let wr (i : Nat) : List Fence.Lbl := if ws && i == 0 then [.hWriteHdr 0, .hWrite 0] else [.hWrite i]
   let rec go (i : Nat) : List Bytes → List Fence.Lbl
     | [] => [.setTrailer tr, .fwdReturn oc om]
     | m :: rest =>
-      if stalledLast && i + 1 == n then [.send m, .hLock i, .hCheck i, .setTrailer tr, .fwdReturn oc om, .hWrite i, .hUnlock i]
-      else full i m ++ go (i + 1) rest
+      if stalledLast && i + 1 == n then [.send m, .hLock i, .hCheck i, .setTrailer tr, .fwdReturn oc om] ++ wr i ++ [.hUnlock i]
+      else [.send m, .hLock i, .hCheck i] ++ wr i ++ [.hUnlock i] ++ go (i + 1) rest
   go 0 msgs ++ [.finLock, .finSet, .finUnlock, .writeTrailer]
 
 def fenceReplayOK (msgs : List Bytes) (stalledLast : Bool) (tr : MD) (oc : Nat) (om : Bytes) (md : MD) (body : Bytes) : Bool :=
-  match GB.LTS.run Fence.step (Fence.init .fixed .http) (fenceLabels msgs stalledLast tr oc om) with
+  match GB.LTS.run Fence.step (Fence.init .fixed .http) (fenceLabels false msgs stalledLast tr oc om) with
   | some s =>
     s.phase == .done && beqB (s.out.dropLast.flatten ++ lpmTrailer md) body &&
+    (match s.trW with | some t => mdLines t == mdLines md | none => false)
+  | none => false
+
+/-- the same over WebSocket: the observed message list must be the LTS output frame by frame -/
+def fenceReplayWSOK (msgs : List Bytes) (stalledLast : Bool) (tr : MD) (oc : Nat) (om : Bytes) (md : MD) (wsm : List Bytes) : Bool :=
+  match GB.LTS.run Fence.step (Fence.init .fixed .ws) (fenceLabels true msgs stalledLast tr oc om) with
+  | some s =>
+    s.phase == .done && beqBs (s.out.dropLast ++ [lpmTrailer md]) wsm &&
     (match s.trW with | some t => mdLines t == mdLines md | none => false)
   | none => false
 
@@ -508,8 +517,11 @@ def handleWS (i o : List String) : String :=
               ocs != "-" && (match rv.getLast? with | some (.err c) => early || oc == c | _ => true)
             else if !hdOK then oc == 3 && ocs == "-" && rv.isEmpty && tg.isEmpty && sd.isEmpty
             else ocs != "-" && routeOutcomeOK rt oc om && rv.isEmpty && tg.isEmpty && sd.isEmpty
+          let fenceOK : Bool := !routed || !hdOK || (wsm.foldl (fun a m => a + m.length) 0) > 200000 ||
+            fenceReplayWSOK msgs (stalled && decide (msgs.length > sd.length)) tr oc om md wsm
           if !rvOK then s!"DIFF model=rv:{showResList mrv}"
           else if !respOK then "DIFF model=ws-messages"
+          else if !fenceOK then "DIFF model=fence-lts-replay"
           else if !ocOK then "DIFF model=outcome"
           else
             let big : Bool := items.any (fun it => (WSItem.enc it).length ≥ 65536) || rs.any (fun m => m.length ≥ 65536)
